@@ -1,9 +1,11 @@
 package props
 
 import (
+	"fmt"
 	"go/constant"
 	"go/token"
 	"go/types"
+	"strings"
 
 	"bifrostverify/an"
 
@@ -148,6 +150,13 @@ func closedChannelReported(c *an.Check, fn *ssa.Function, construct string) {
 }
 
 func c08(c *an.Check) {
+	// consumers of the framed session: UnmarshalVT merges into the message it is given, so a message object that survives
+	// from one RecvMsg to the next must be fresh per iteration or Reset in between — otherwise frame N is decoded as the
+	// union of frames 1..N
+	recvMsgFreshness(c)
+	// the transports built on the packet conn agree on its size limit: every construction in transport/common/conn passes
+	// the configured mtu itself
+	packetConnLimitSiblings(c)
 	p := c.P
 	T := "PacketConn"
 	rx := p.Func("util/rwc", T, "rxPump")
@@ -481,4 +490,113 @@ func storedIn(p *an.Prog, v ssa.Value) ssa.Value {
 		}
 	}
 	return v
+}
+
+func recvMsgFreshness(c *an.Check) {
+	p := c.P
+	cRecv := an.R("stream/packet", "Session", "RecvMsg")
+	n, bad := 0, ""
+	for _, fn := range p.AllRepoFuncs() {
+		if strings.Contains(fn.Pkg.Pkg.Path(), "/examples/") {
+			continue
+		}
+		for _, call := range an.Calls(fn, cRecv) {
+			loop := an.InnermostLoop(fn, call.Block())
+			if loop == nil {
+				continue
+			}
+			n++
+			msg := call.Call.Args[1]
+			if mi, ok := msg.(*ssa.MakeInterface); ok {
+				msg = mi.X
+			}
+			// allocated in the loop?
+			fresh := false
+			for r := range an.AliasRoots(msg) {
+				if al, ok := r.(*ssa.Alloc); ok && loop[al.Block()] {
+					fresh = true
+				}
+			}
+			if fresh {
+				continue
+			}
+			isHead := func(b *ssa.BasicBlock) bool {
+				if !loop[b] {
+					return false
+				}
+				for o := range loop {
+					if !b.Dominates(o) {
+						return false
+					}
+				}
+				return true
+			}
+			isReset := func(i ssa.Instruction) bool {
+				cl, ok := i.(*ssa.Call)
+				if !ok {
+					return false
+				}
+				name := ""
+				var recv ssa.Value
+				if cl.Call.IsInvoke() {
+					name, recv = cl.Call.Method.Name(), cl.Call.Value
+				} else if fo := an.CallObj(cl.Common()); fo != nil && len(cl.Call.Args) > 0 {
+					name, recv = fo.Name(), cl.Call.Args[0]
+				}
+				if name != "Reset" || recv == nil {
+					return false
+				}
+				if mi, ok := recv.(*ssa.MakeInterface); ok {
+					recv = mi.X
+				}
+				return recv == msg
+			}
+			if an.ReachesWithout(call, isReset, isHead) {
+				bad = fmt.Sprintf("%s at %s receives into a message that outlives the loop iteration and is not Reset before the next RecvMsg: repeated fields of earlier frames accumulate in later ones", an.FuncName(fn), p.Pos(call.Pos()))
+			}
+		}
+	}
+	c.Require(bad == "" && n >= 2, "LOOPALLOC", "packet.Session.RecvMsg callers decode each frame into a fresh (or reset) message", nil, "", n, "message allocated per iteration, or Reset() on every way back to the loop head", func() string {
+		if bad != "" {
+			return bad
+		}
+		return "fewer than 2 looping RecvMsg call sites found (anchor drift)"
+	}())
+}
+
+func packetConnLimitSiblings(c *an.Check) {
+	p := c.P
+	n, bad := 0, ""
+	for _, fn := range p.PkgFuncs("transport/common/conn") {
+		for _, g := range an.WithClosures(fn) {
+			for _, call := range an.Calls(g, an.R("util/rwc", "", "NewPacketConn")) {
+				n++
+				arg := call.Call.Args[4]
+				okArg := false
+				switch v := arg.(type) {
+				case *ssa.UnOp:
+					if f := an.FieldOfAddr(v.X); f != nil && f.Name() == "mtu" {
+						okArg = true
+					}
+					if cell := p.CellOf(v.X); cell != nil {
+						okArg = true // captured local holding the configured mtu
+					}
+				case *ssa.Parameter, *ssa.FreeVar, *ssa.Phi, *ssa.Call:
+					okArg = true
+				}
+				if _, isBin := arg.(*ssa.BinOp); isBin {
+					okArg = false
+				}
+				if !okArg {
+					bad = fmt.Sprintf("%s at %s constructs the packet conn with a size limit that is computed from, not equal to, the configured mtu: the two directions of a link disagree about the largest valid packet", an.FuncName(g), p.Pos(call.Pos()))
+				}
+			}
+		}
+	}
+	c.Require(bad == "" && n >= 2, "SIBLING", "conn transports construct their packet conns with the configured mtu", nil, "", n, "NewPacketConn(…, mtu, …) at every site", func() string {
+		if bad != "" {
+			return bad
+		}
+		return "fewer than 2 NewPacketConn sites found (anchor drift)"
+	}())
 }
